@@ -368,6 +368,26 @@ def run(shard, ctx):
                             ctx.fail("C13:%s.result_not_decode_of_device_bytes" % c.facade, "cmd.result differs from decode of the bytes the device left", wit)
                         if bytes(cmd.datain) != state["left"]:
                             ctx.fail("C13:%s.datain_modified_after_execute" % c.facade, "data-in buffer changed after the device filled it", wit)
+                        # the caller edits the result it was given (the swp.py flow), polls the same command object again and
+                        # gets the same answer from the device: the result is again the decode of what the device left.  And a
+                        # deep copy of the command is independent of the original.
+                        try:
+                            import copy as _copy
+
+                            from vmon.props.c06 import scribble_all
+
+                            dup = _copy.deepcopy(cmd)
+                            if scribble_all(dup.result) and not same(cmd.result, expect):
+                                ctx.fail("C13:%s.deepcopy_shares_result" % c.facade, "editing the result of a deep copy of the command changed the original's result", wit)
+                            if scribble_all(cmd.result):
+                                dev.execute(cmd)
+                                cmd.unmarshall(**unmarshall_kwargs(c, full))
+                                ctx.count("re_executions_after_result_edit")
+                                if not same(cmd.result, expect):
+                                    ctx.fail("C13:%s.stale_result_after_re_execution" % c.facade,
+                                             "the command object was executed again (same answer from the device) after its result had been edited in place: the result is not the decode of the device's bytes", wit)
+                        except Exception as e:  # noqa: BLE001
+                            ctx.fail("C13:%s.re_execution_raises.%s" % (c.facade, type(e).__name__), "re-executing / re-decoding the returned command raised %s" % e, wit, exc=e)
     finally:
         SCSICommand.unmarshall = orig_unm
 
